@@ -996,6 +996,8 @@ class Parsent(object):
         self.closed = False
         self.errored = False
         self.error = None
+        self.parms = None  # do not report those of the previous message
+        self.trails = None
 
         while not self.started:
             if self.msg:
